@@ -30,6 +30,9 @@ CHECKS = {
  "C25": dict(level="fault_enumeration", technique="deterministic simulation of the byte-stream transport: seeded packet sequences through the real SLIP/SLIPMUX writer and reader, complete enumeration of every single transient-empty-read position x kind per stream, plus seeded multi-stall / bounded-chunk schedules; shrunk replayable tapes",
    text="Every generated stream is read back fault-free and under every single stall position and kind (complete for one fault per stream up to the size limit), then under seeded multi-fault schedules; payloads and frame types must equal what was written and every packet must be delivered once the bytes are available. Streams are sampled, the single-fault space per stream is enumerated.",
    note="trusts the harness consumer loop (concatenate isPrefix fragments) as the documented reader protocol; transient reads limited to (0,nil),(0,EOF),(0,timeout); no concurrent writers", ref="DESIGN.md section 4 C25"),
+ "C26": dict(level="fault_enumeration", technique="deterministic simulation of the byte stream under bufio: seeded messages of every registered type (fields filled by reflection from the tape) through the real DAP writer/reader/decoder, complete enumeration of every single split offset and every cut offset per stream, bounded-chunk reads, seeded short-read/empty-burst/cut schedules; shrunk replayable tapes",
+   text="Every generated stream is read back fault-free, with all reads bounded to 1/2/3/7 bytes, under every single split position and every cut offset (complete per stream up to the size limit), and under seeded multi-fault schedules. Decoded messages must have the written dynamic type and marshal to identical JSON; after a cut the reader must return the completely delivered messages and then an error, never a message that was not written. The constructor tables are also checked against the schema naming convention.",
+   note="equality is JSON-level (encoding/json on both sides) plus dynamic type; protocol defaults pre-set by a constructor are treated as the meaning of an omitted field; streams above the limit are only covered by the seeded schedules", ref="DESIGN.md section 4 C26"),
 }
 ORDER = ["C10","C11","C12","C13","C21","C25","C26","C27","C28"]
 m = {
